@@ -275,6 +275,68 @@ fn part_s(depth: usize) -> SeqOut {
     out
 }
 
+// ---------------------------------------------------------------- Part L (high-degree nodes)
+/// delete_node switches to a parallel clean-up at 100 incident edges: structured hubs of degree
+/// around that threshold, every mixture of edge orientation, checked before and after deletion
+fn part_l() -> (u64, Vec<(String, String, serde_json::Value)>) {
+    let mut viol = vec![];
+    let mut cases = 0u64;
+    for degree in [3usize, 99, 100, 101, 130] {
+        for pattern in 0..6u8 {
+            for victim_is_hub in [true, false] {
+                cases += 1;
+                let g = GraphEngine::new();
+                let mut r = RefGraph::default();
+                let hub = g.create_node("H", props(0)).unwrap();
+                r.nodes.insert(hub);
+                let mut nodes = vec![hub];
+                let mut edges = vec![];
+                for i in 0..degree {
+                    let leaf = g.create_node("L", props(i as i64)).unwrap();
+                    r.nodes.insert(leaf);
+                    nodes.push(leaf);
+                    // pattern selects which orientations occur: 0 hub->leaf, 1 leaf->hub, 2 undirected hub-leaf,
+                    // 3 undirected leaf-hub, 4 all four round-robin, 5 round-robin plus a self-loop and a parallel edge
+                    let kind = if pattern < 4 { pattern } else { (i % 4) as u8 };
+                    let (from, to, directed) = match kind {
+                        0 => (hub, leaf, true),
+                        1 => (leaf, hub, true),
+                        2 => (hub, leaf, false),
+                        _ => (leaf, hub, false),
+                    };
+                    let id = g.create_edge(from, to, "E", props(1), directed).unwrap();
+                    r.edges.insert(RefEdge { id, from, to, directed });
+                    edges.push(id);
+                }
+                if pattern == 5 {
+                    for (from, to, directed) in [(hub, hub, true), (hub, hub, false), (nodes[1], hub, true)] {
+                        let id = g.create_edge(from, to, "E", props(2), directed).unwrap();
+                        r.edges.insert(RefEdge { id, from, to, directed });
+                        edges.push(id);
+                    }
+                }
+                let describe = format!("hub with {degree} leaves, orientation pattern {pattern}, delete {}", if victim_is_hub { "hub" } else { "first leaf" });
+                if let Err((sig, msg)) = check_graph(&g, &r, &nodes, &edges) {
+                    viol.push((format!("c05:seq:high-degree:{sig}"), format!("{describe} (before deletion): {msg}"), json!({"part":"L","degree":degree,"pattern":pattern})));
+                    continue;
+                }
+                let victim = if victim_is_hub { hub } else { nodes[1] };
+                let res = g.delete_node(victim);
+                if res.is_err() {
+                    viol.push(("c05:seq:high-degree:delete_node-fails".into(), format!("{describe}: {res:?}"), json!({"part":"L","degree":degree,"pattern":pattern})));
+                    continue;
+                }
+                r.nodes.remove(&victim);
+                r.edges.retain(|e| e.from != victim && e.to != victim);
+                if let Err((sig, msg)) = check_graph(&g, &r, &nodes, &edges) {
+                    viol.push((format!("c05:seq:high-degree:{sig}"), format!("{describe}: {msg}"), json!({"part":"L","degree":degree,"pattern":pattern,"victim_is_hub":victim_is_hub})));
+                }
+            }
+        }
+    }
+    (cases, viol)
+}
+
 // ---------------------------------------------------------------- Part T
 #[derive(Clone, Debug, Serialize, Deserialize)]
 enum TOp {
@@ -454,6 +516,12 @@ fn main() {
         rep.violation(sig.clone(), msg.clone(), r.clone());
     }
     rep.part("S", json!({"depth": depth, "distinct_states": s.states, "transitions": s.transitions}));
+    let (l_cases, l_viol) = part_l();
+    for (sig, msg, r) in l_viol.into_iter().take(6) {
+        rep.violation(sig, msg, r);
+    }
+    rep.part("L", json!({"high_degree_cases": l_cases, "degrees": [3, 99, 100, 101, 130], "orientation_patterns": 6}));
+    rep.add("evaluations", l_cases);
     rep.sample(json!({"part":"S","deepest_new_state_history": s.deepest}));
     let results: Vec<WStats> = par::spawn_workers(par::worker_count().min(programs(thorough).len()), &[]);
     let mut t = WStats::default();
